@@ -83,6 +83,17 @@ pub open spec fn g_spec(x: Seq<u64>, y: Seq<u64>) -> Seq<u64> {
     xor_seq(cols_spec(rows_spec(r, 8), 8), r)
 }
 
+// ------------------------------------------------------------------------------------------------
+// blocks as 1024 bytes <-> 128 little-endian 64-bit words
+// ------------------------------------------------------------------------------------------------
+pub open spec fn words_of_bytes(b: Seq<u8>) -> Seq<u64> {
+    Seq::new(128, |i: int| le_nat(b.subrange(8 * i, 8 * i + 8)) as u64)
+}
+
+pub open spec fn bytes_of_words(w: Seq<u64>) -> Seq<u8> {
+    Seq::new(1024, |j: int| nat_to_le(w[j / 8] as nat, 8)[j % 8])
+}
+
 pub proof fn lemma_fblamka(x: u64, y: u64)
     ensures
         (x & 0xFFFFFFFFu64) * (y & 0xFFFFFFFFu64) <= u64::MAX,
